@@ -71,6 +71,14 @@ func (d *decoder) decode(v interface{}) error {
 				} else {
 					return err
 				}
+			case int8:
+				if v, err := d.r.readByte(tag); err == nil {
+					field.SetInt(int64(int8(v)))
+				} else if err == io.EOF {
+					continue
+				} else {
+					return err
+				}
 			case uint16:
 				if v, err := d.r.readUint16(tag); err == nil {
 					field.SetUint(uint64(v))
